@@ -230,6 +230,8 @@ NUMBER_TEXTS = [
     "3", "12", "72", "0.11", "9e-4", "2.5e-3", "1e-7", "0.123456789", "7.0000001", "100.12345", "1500.5", "65536", "99999.9",
     "123456.789", "999999.5", "1000000.5", "1234567", "3120450", "3120485", "31204857", "1e6", "1.5e7", "0.30000000000000004",
     "2.675", "1234.5678901",
+    # plain decimals / integers that a float prints back in exponent notation with a signed exponent (2e-05, 2e+16)
+    "0.00002", "20000000000000000",
 ]
 DIST_SLOTS = [
     ("gauss", "gauss({0}, 10)"), ("gauss", "gauss(3120470.5, {0})"), ("uniform", "uniform({0}, 41204858)"), ("uniform", "uniform(1, {0})"),
